@@ -590,6 +590,44 @@ where
         }
         t.class(if l < n { "json-rejected:short" } else { "json-rejected:long" });
     }
+    // ... and so are the lengths of the related larger layouts, filled the way that layout would be: every column of 2 or 3
+    // elements padded with a 0 (the last one with a 1), optionally followed by a whole extra column 0, .., 0, 1 - e.g. the
+    // 16 numbers of the Mat4 that holds an Affine3A, the 9 of the Mat3 that holds an Affine2, a Vec3 with w appended
+    {
+        let (zero, one) = if texts[0] == "true" || texts[0] == "false" {
+            ("false", "true")
+        } else if texts[0].contains('.') || texts[0].contains('e') || texts[0].contains('E') {
+            ("0.0", "1.0")
+        } else {
+            ("0", "1")
+        };
+        for r in [2usize, 3, 4] {
+            if n % r != 0 {
+                continue;
+            }
+            let cols = n / r;
+            for extra_col in [false, true] {
+                let mut parts: Vec<&str> = vec![];
+                for c in 0..cols {
+                    for i in 0..r {
+                        parts.push(texts[c * r + i].as_str());
+                    }
+                    parts.push(if c + 1 == cols && !extra_col { one } else { zero });
+                }
+                if extra_col {
+                    for _ in 0..r {
+                        parts.push(zero);
+                    }
+                    parts.push(one);
+                }
+                let s = format!("[{}]", parts.join(","));
+                if let Ok(v2) = serde_json::from_str::<T>(&s) {
+                    return Err(fail::<T>("json-accepts-long-sequence", format!("{}: serde_json::from_str({s}) with {} elements (needs {n}; its columns padded like the next larger layout) is accepted and yields {}", T::NAME, parts.len(), fmtw::<T>(&wv(&v2)))));
+                }
+                t.class("json-rejected:padded-column layout");
+            }
+        }
+    }
     // not a flat sequence
     for s in ["{}".to_string(), format!("[{exp}]")] {
         if let Ok(v2) = serde_json::from_str::<T>(&s) {
